@@ -170,6 +170,13 @@ def check_scale(case) -> Outcome:
         s2_ = np.asarray(sub.get_model_matrix(pd.DataFrame({"x": fol, "w": w2})), dtype=float).ravel()
         if s2_.shape != exp2.shape or not np.allclose(s2_, exp2 * w2, rtol=1e-9, atol=2e-9 * scale_f):
             out.fail("subset-follow-up", f"subset [{src}:w] of '{src} + {src}:w - 1' trained on {case['x']}, applied to {case['follow']}", **feat)
+        # ... and when the stateful call sits inside a larger (stateless) factor of the subset
+        wrapped = f"I({src} * 2 + 1)"
+        mm = model_matrix(f"{wrapped} + x - 1", pd.DataFrame({"x": x}))
+        sub = mm.model_spec.subset([wrapped])
+        s3_ = np.asarray(sub.get_model_matrix(pd.DataFrame({"x": fol})), dtype=float).ravel()
+        if s3_.shape != exp2.shape or not np.allclose(s3_, exp2 * 2 + 1, rtol=1e-9, atol=4e-9 * scale_f):
+            out.fail("subset-follow-up", f"subset [{wrapped}] of '{wrapped} + x - 1' trained on {case['x']}, applied to {case['follow']}", **feat, nested=True)
         # the transform nested around center(): the inner transform keeps its own recorded statistic
         if abs(m) <= 1e6 * spread:
             z = x - m
